@@ -155,9 +155,9 @@ Proof.
       rewrite H1 in Hrun; cbn [fst snd wret wrun_spec] in Hrun; [exfalso; apply (Bad _ Hrun)|].
     pose proof (validate_prototype_ok proto Hv) as R. unfold rules_part in R.
     unfold representable_prototype.
-    destruct R as (R1 & R2 & R3 & R4 & R5 & R6 & R7 & R8 & R9 & R10 & R11 & R12 & R13 & R14 & R15 & R16 & R17 & R18 & _).
+    destruct R as (R1 & R2 & R3 & R4 & R5 & R6 & R7 & R8 & R9 & R10 & R11 & R12 & R13 & R14 & R15 & R16 & R17 & R18 & _ & R19).
     repeat (split; [assumption|]).
-    split; [apply (ext_validate_prototype_ok proto (ws_exts st) He)|apply (capacity_fits proto mpp Hm)].
+    split; [apply (ext_validate_prototype_ok proto (ws_exts st) He)|split; [apply (capacity_fits proto mpp Hm)|exact R19]].
   - (* AddImage *)
     destruct (ws_finalized st); [cbn [wret wrun_spec] in Hrun; exfalso; apply (Bad _ Hrun)|reflexivity].
   - (* Finalize *)
